@@ -72,11 +72,18 @@ ASSUME_COMMON = [
 ]
 
 
-def pgm_runs(prop, q_cases, t_cases):
+def archer_run(cases):
+    """chunked builds only, under clang + ThreadSanitizer + Archer: a data race inside make_segmentation_par"""
+    return R("static_pgm", "tsanomp", cases, configs="#chunk", shards=8, corpus=False, samples=0)
+
+
+def pgm_runs(prop, q_cases, t_cases, archer=False):
     def runs(tier):
         if tier == "quick":
-            return [Q("static_pgm", "asan", q_cases), Q("static_pgm", "v3", q_cases)]
-        return [R("static_pgm", "asan", t_cases), R("static_pgm", "rel", t_cases * 2), R("static_pgm", "v3", t_cases * 2)]
+            r = [Q("static_pgm", "asan", q_cases), Q("static_pgm", "v3", q_cases)]
+            return r + ([archer_run(250)] if archer else [])
+        r = [R("static_pgm", "asan", t_cases), R("static_pgm", "rel", t_cases * 2), R("static_pgm", "v3", t_cases * 2)]
+        return r + ([archer_run(1500)] if archer else [])
     return runs
 
 
@@ -91,11 +98,13 @@ PLANS = {
         assumptions=ASSUME_COMMON + ["floating-key datasets outside the stated density domain are counted and skipped"],
     ),
     "C02": dict(
-        runs=pgm_runs("C02", 1000, 6000),
-        kinds={"range_malformed", "lower_bound_mismatch"},
+        runs=pgm_runs("C02", 1000, 6000, archer=True),
+        kinds={"range_malformed", "lower_bound_mismatch", "tsan_report"},
         rule="as C01, but every case is queried with every distinct key, its predecessor/successor value, gap midpoints, "
              "lowest(), first-1, last+1, max-1, random and far-away keys, plus the neighbourhood of every chunk seam; "
-             "non-trivial additionally requires >= 1 absent query judged",
+             "non-trivial additionally requires >= 1 absent query judged; the chunked (>= 2^15 keys, 2..20 threads) cases are "
+             "additionally built and queried under clang ThreadSanitizer + Archer: a data race inside the parallel builder makes the "
+             "constructed index depend on the schedule and is reported as tsan_report",
         assumptions=ASSUME_COMMON,
     ),
     "C07": dict(
